@@ -22,10 +22,15 @@ type booksModel struct {
 	nTok    int
 	lost    bool // model and implementation diverged: comparison stopped for this history
 	lostWhy string
+	// crash mode: the model's wallet dies before call number crashBudget of the operation (counted over its
+	// sub-operations); died is set when it did
+	crashBudget int
+	died        bool
+	crashTrace  []string
 }
 
 func newBooksModel(hw *histWorld) *booksModel {
-	bm := &booksModel{on: true, mintQ: map[string]uint64{}, meltQ: map[string]uint64{}, tok: map[int]int{}}
+	bm := &booksModel{on: true, mintQ: map[string]uint64{}, meltQ: map[string]uint64{}, tok: map[int]int{}, crashBudget: -1}
 	b := hw.b
 	fees := make([]uint64, len(b.mints))
 	for i, m := range b.mints {
@@ -238,15 +243,54 @@ func parseAns(raw string) (modelAns, bool) {
 	return ma, true
 }
 
+func isWalletOp(op Sx) bool {
+	r := Render(op)
+	return !strings.HasPrefix(r, "(settle ") && !strings.HasPrefix(r, "(rotate ")
+}
+
+// armCrash: the next operation's wallet dies before its call number k.
+func (bm *booksModel) armCrash(k int) {
+	bm.crashBudget, bm.died, bm.crashTrace = k, false, nil
+}
+
+func (bm *booksModel) disarm() { bm.crashBudget, bm.died = -1, false }
+
 func (bm *booksModel) ask(hw *histWorld, op Sx) (modelAns, bool) {
-	raw := hw.c.Drv.Ask(L(A("books.op"), op))
+	if bm.died {
+		return modelAns{}, false
+	}
+	cmd := L(A("books.op"), op)
+	dying := false
+	if bm.crashBudget >= 0 && isWalletOp(op) {
+		var n int
+		fmt.Sscanf(hw.c.Drv.Ask(L(A("books.calls"), op)), "%d", &n)
+		if bm.crashBudget >= n {
+			bm.crashBudget -= n
+		} else {
+			cmd = L(A("books.crash"), op, I(bm.crashBudget))
+			dying = true
+		}
+	}
+	raw := hw.c.Drv.Ask(cmd)
 	ma, ok := parseAns(raw)
 	if !ok {
 		bm.lose(hw, Render(op), raw)
 		hw.c.Disagree([]string{"C17", "C19"}, Render(op), "", raw, hw.b.replay())
+		return ma, false
 	}
 	bm.nTok = ma.tokens
-	return ma, ok
+	if bm.crashBudget >= 0 || dying {
+		bm.crashTrace = append(bm.crashTrace, ma.trace...)
+	}
+	if dying {
+		if ma.res == "(died)" {
+			bm.died = true
+			return ma, false
+		}
+		// the operation ended before the budget was used up
+		bm.crashBudget = -1
+	}
+	return ma, true
 }
 
 func sameMultiset(a, b []string) bool {
